@@ -1854,6 +1854,57 @@ Proof.
     cbn [g_last]. exists cl. split; [exact Hc|]. exact Hl.
 Qed.
 
+(* the ring a commit for (g, t, p) is handed to *)
+Definition commit_ring (cf : config) (cl : cluster) (g t p : Z) : ring :=
+  match pr_ring (nth (Z.to_nat p) (get_consumer_partition cf (grp_or_empty cl g) t p (snd (get_broker_offset cl t p)))
+                     empty_partition) with
+  | Some w => w
+  | None => []
+  end.
+
+(* a commit that reaches the ring and is stored by it raises g_last to max(ts, g_last) with ts the ARRIVED commit's own
+   timestamp - also when min-distance merges it into the previous slot (the slot keeps the previous timestamp, lastCommit
+   does not): so g_last >= ts afterwards *)
+Theorem stored_commit_raises_last cf now s c g t p off order ts cl :
+  get s c = Some cl -> too_old cf now ts = false -> cf_accept cf g = true -> snd (get_broker_offset cl t p) <> 0 ->
+  commit_stored (commit_ring cf cl g t p) order = true ->
+  exists parts,
+    step cf now s (SetConsumerOffset c g t p off order ts) =
+    Done (set s c (mkCluster (cl_broker cl)
+                    (set (cl_consumer cl) g (mkCgroup parts (Z.max ts (g_last (grp_or_empty cl g))))))) RNone /\
+    ts <= Z.max ts (g_last (grp_or_empty cl g)).
+Proof.
+  intros Hc Hold Ha Hcnt Hst. cbn [step]. unfold add_consumer_offset. rewrite Hc, Hold, Ha. cbn [negb].
+  unfold commit_ring, grp_or_empty in Hst |- *.
+  destruct (get_broker_offset cl t p) as [boff cnt] eqn:Hb. cbn [snd] in Hcnt, Hst.
+  apply Z.eqb_neq in Hcnt. rewrite Hcnt. cbv zeta.
+  match goal with |- context [ring_step ?a ?b ?x ?d] => destruct (ring_step a b x d) as [w' app] end.
+  rewrite Hst. eexists. split; [reflexivity|]. apply Z.le_max_l.
+Qed.
+
+(* ... for instance with min-distance 5 s: the second commit arrives 0.7 s after the first and is merged into its slot (the ring
+   keeps timestamp 1 599 999 300), yet g_last is the second commit's own 1 600 000 000; exactly expire-group later the group is
+   still reported, one second later it is purged *)
+Definition mg_cf : config := mkConfig 3 1000 5 (fun _ => true).
+Definition mg_hist : list (Z * req) :=
+  [ (1600000, SetBrokerOffset 1 1 0 1 100);
+    (1600000, SetConsumerOffset 1 1 1 0 90 1 1599999300); (1600000, SetConsumerOffset 1 1 1 0 95 2 1600000000) ].
+Definition mg_state : state := match run mg_cf (init_state [1]) mg_hist with Some (s, _) => s | None => [] end.
+
+Lemma merged_commit_example :
+  (exists cl grp, get mg_state 1 = Some cl /\ get (cl_consumer cl) 1 = Some grp /\
+     stored_ts grp = [1599999300] /\ g_last grp = 1600000000) /\
+  names (obs mg_cf 1601000 mg_state (FetchConsumer 1 1)) = [1] /\
+  obs mg_cf 1601001 mg_state (FetchConsumer 1 1) = Some RNil.
+Proof.
+  split.
+  - destruct (get mg_state 1) as [cl|] eqn:Hc; [|vm_compute in Hc; discriminate].
+    destruct (get (cl_consumer cl) 1) as [grp|] eqn:Hg; [|vm_compute in Hc; injection Hc as <-; vm_compute in Hg; discriminate].
+    exists cl, grp. split; [reflexivity|]. split; [first [reflexivity|exact Hg]|].
+    vm_compute in Hc. injection Hc as <-. vm_compute in Hg. injection Hg as <-. split; reflexivity.
+  - split; vm_compute; reflexivity.
+Qed.
+
 (* inside the int64 guard a group is answered not-found exactly when g_last is older than the cut-off *)
 Theorem purged_iff_last_expired cf now s c g cl grp :
   in_i64 ((now - cf_expire cf) * 1000) ->
